@@ -208,6 +208,14 @@ pub fn run_and_check(p: &Program, seed: &SeedMode, opts: &CheckOpts) -> Outcome 
                         node: i,
                         detail: format!("tracked leaf n{} reachable from the root through tracked operands holds no gradient", i),
                     });
+                } else if matches!(n, Node::Op { post: Some(true), .. }) {
+                    // which intermediates keep their gradient is the library's choice - except those the program asked
+                    // to keep by calling `.tracked()` on the result
+                    o.failures.push(Failure {
+                        kind: "interior-grad-missing".into(),
+                        node: i,
+                        detail: format!("n{} was explicitly tracked() when it was built and is reachable from the root through tracked operands, but holds no gradient", i),
+                    });
                 }
             }
             (Some((gd, gv)), false) => {
